@@ -6,6 +6,10 @@ The model (Model.lean) is the token-level composite `_lex ∘ format` (`toks*`),
 import Verif.C15.Lemmas
 import Verif.C15.Canon
 import Verif.C15.Parse
+import Verif.C15.RoundTrip
+import Verif.C15.TopLevel
+import Verif.C15.Files
+import Verif.C15.Second
 
 namespace Verif.C15
 set_option linter.unusedSimpArgs false
@@ -157,32 +161,97 @@ theorem expand_list_shapes :
   simp [expandTerm, expandItems, expandEnd, expandVal, restPath, Items.length, Items.isNil]
 
 
-/-! ## Parsing what was formatted (token level) -/
+/-! ## Parsing what was formatted (token level)
 
--- FULL STATEMENT (not proved): for every well-formed value `v` (`wfVal v`), all sufficiently large
--- fuel `n` and every `rest` that does not start with `&`:
---   parseConj n (toksVal v ++ rest) = .ok (canonVal v, rest)
--- and for every item list `xs` with balanced environments:  parseFile (xs.flatMap toksItem) = .ok (xs.map canonItem).
--- Missing: the mutual induction through AVMs (`mkAVM (features fs) = canonFeats fs`) and lists.
--- These statements are what the correspondence run checks on every generated entity
--- (model `parsed` = implementation `parsed`, and `parsed` is compared with `orig` by the oracle).
+`toks*` is the composite `_lex ∘ format` (layout-free), `parse*` the recursive-descent parser,
+`canon*` what a re-parse returns: the identity except that a one-term Conjunction object comes
+back as its bare term.  `wf*` states what the constructors guarantee (distinct upper-case feature
+names, non-empty conjunctions, a dotted list has items and its end is not a list-type name).
+Fuel is the recursion budget of the model parser: "for all sufficiently large fuel"; running out
+of fuel is a distinct error (`Err.fuel`) that the correspondence run would report. -/
 
-/-- "type definitions ... whose bodies nest conjunctions ..., coreferences, strings, regexes and
-documentation strings": proved part — a conjunction of any number of leaf terms (identifiers,
-strings, regexes, coreferences, each with or without a docstring), written as tokens and followed
-by anything that does not continue the conjunction, is parsed back to exactly those terms and
-exactly that rest.  Hypothesis of the partial result: `allLeaves` (no AVM or list among the terms). -/
-theorem parse_toks_conjunction_partial (t : Term) (ts : Terms) (ht : isLeaf t = true)
-    (hts : allLeaves ts = true) (n : Nat) (hn : n ≥ 2 * (ts.toList.length + 1)) (rest : List Tok)
-    (hr : noAmp rest) :
-    parseTerms n (toksTerms (.cons t ts) ++ rest) = .ok (t :: ts.toList, rest) :=
-  parseTerms_leaves ts t ht hts n hn rest hr
+/-- "Formatting any TDL entity ... whose bodies nest conjunctions, feature structures with dotted
+paths, cons and diff lists (open, closed, dotted), coreferences, strings, regexes and documentation
+strings ... and parsing the text yields an entity with the same structure": for EVERY well-formed
+value `v` (arbitrary nesting of conjunctions, AVMs with folded dotted paths, cons lists closed /
+open / dotted / empty, diff lists, leaves, each with or without docstring), the parser run on
+`toksVal v ++ rest` returns exactly `canonVal v` and exactly `rest`, for every `rest` that does not
+start with `&`. -/
+theorem parse_toks_value (v : Val) (hw : wfVal v = true) :
+    ∃ n0, ∀ n, n0 ≤ n → ∀ rest, noAmp rest → parseConj n (toksVal v ++ rest) = .ok (canonVal v, rest) :=
+  parseConj_toksVal v hw
 
-/-- the hypotheses are satisfiable, and the result is not vacuous: `a & "s" & #x` before a dot. -/
-example : parseTerms 6 (toksTerms (.cons (.ident none ['a']) (.cons (.str (some ['d']) ['s'])
-      (.cons (.coref none ['x']) .nil))) ++ [.dot])
-    = .ok ([.ident none ['a'], .str (some ['d']) ['s'], .coref none ['x']], [.dot]) :=
-  parseTerms_leaves _ _ rfl rfl 6 (by simp [Terms.toList]) [.dot] trivial
+/-- the same for a single term, with no condition on what follows. -/
+theorem parse_toks_term (t : Term) (hw : wfTerm t = true) :
+    ∃ n0, ∀ n, n0 ≤ n → ∀ rest, parseTerm n (toksTerm t ++ rest) = .ok (canonTerm t, rest) :=
+  parseTerm_toksTerm t hw
+
+/-- "letter sets, wild cards" (character level, after the repair of F45): the formatter's escaped
+character list is read back by `_parse_letterset` as exactly the characters — including `)`,
+spaces and backslashes. -/
+theorem parse_format_letterset (var chars : Str) (h : morphOK '!' var chars = true) :
+    parseMorph (morphText "letter-set".toList var chars) = .ok (.letterset var chars) :=
+  parseMorph_letterset var chars h
+
+theorem parse_format_wildcard (var chars : Str) (h : morphOK '?' var chars = true) :
+    parseMorph (morphText "wild-card".toList var chars) = .ok (.wildcard var chars) :=
+  parseMorph_wildcard var chars h
+
+/-- "type definitions, addenda and lexical rules ..., as well as letter sets, wild cards,
+environments, includes and comments ... all sequences of top-level entities in a file": every list
+of well-formed items (`wfItem`: a type definition has a supertype, an addendum has terms or a
+docstring, affix sub-patterns and letter-set texts are in source form, an instance environment
+has a status) whose `:begin`/`:end` items are properly nested from the state `cur`/`stack`
+(`envOK`) is parsed back, item by item, to `canonItem` of each item.  With `cur = none`,
+`stack = []` this is a whole file. -/
+theorem parse_toks_file (xs : List Item) (cur : Option Bool) (stack : List (Option Bool))
+    (hw : ∀ x ∈ xs, wfItem x = true) (henv : envOK cur stack xs = true) :
+    ∃ n0 m0, ∀ n m, n0 ≤ n → m0 ≤ m →
+      parseItems n m cur stack (xs.flatMap toksItem) = .ok (xs.map canonItem) :=
+  parseItems_toks xs cur stack hw henv
+
+/-- the hypotheses are satisfiable and the result is not vacuous: an instance environment holding
+`t := s & [ A.B < #x, "q" . #y > ] """d""".` -/
+example :
+    let body : Terms := .cons (.ident none ['s']) (.cons (.avm none (.cons ['A']
+      (.term (.avm none (.cons ['B'] (.term (.cons none (.cons (.term (.coref none ['x']))
+        (.cons (.term (.str none ['q'])) .nil)) (.dotted (.term (.coref none ['y']))))) .nil))) .nil)) .nil)
+    let xs : List Item := [.beginEnv true (some ['r']), .typedef ['t'] body (some ['d']), .endEnv true]
+    (∀ x ∈ xs, wfItem x = true) ∧ envOK none [] xs = true := by
+  simp [wfItem, envOK, envStep, termsNonempty, wfTerms, wfTerm, wfFeats, wfVal, wfItems, wfEnd, keysOK,
+    distinct, Feats.keys, upper, Items.isNil, Terms.toList, isTypeTerm, valEqStr, canonVal, canonTerm]
+
+/-- "formatting the parsed entity gives the same text" (token level): when no feature value is a
+one-term Conjunction around a one-feature AVM without docstring (`clean*`, i.e. outside F44), the
+re-parsed value is written with exactly the same tokens. -/
+theorem second_format_value (v : Val) (hc : cleanVal v = true) : toksVal (canonVal v) = toksVal v :=
+  toksVal_canon v hc
+
+theorem second_format_terms (ts : Terms) (hc : cleanTerms ts = true) :
+    toksTerms (canonTerms ts) = toksTerms ts :=
+  toksTerms_canon ts hc
+
+/-- ... for every top-level item -/
+theorem second_format_item (x : Item) (hc : ∀ ts, x.terms? = some ts → cleanTerms ts = true) :
+    toksItem (canonItem x) = toksItem x := by
+  cases x <;> simp_all [canonItem, toksItem, Item.terms?, toksTerms_canon]
+
+/-- ... and therefore parsing the second text gives the same value again. -/
+theorem parse_second_format (v : Val) (hw : wfVal v = true) (hc : cleanVal v = true) :
+    ∃ n0, ∀ n, n0 ≤ n → ∀ rest, noAmp rest →
+      parseConj n (toksVal (canonVal v) ++ rest) = .ok (canonVal v, rest) := by
+  rw [toksVal_canon v hc]; exact parseConj_toksVal v hw
+
+-- FULL STATEMENT (not proved), what is left of the property beyond the theorems above:
+-- * `parseFile` uses the concrete fuel `6·|tokens|+10`; the theorems say "for all sufficiently large
+--   fuel" and do not bound `n0` (running out of fuel is the distinct error `Err.fuel`, never seen in
+--   the correspondence run).
+-- * text level: `lex (formatText x) = toks (layout x)` — that the formatter's line breaks and
+--   indentation only insert white space between tokens, and that the regex lexer returns the
+--   string/regex/identifier tokens — is compared on every generated entity, not proved
+--   (docstrings and block comments excepted: `scan_fmtDoc`).
+-- * `fmtDoc k (fmtDoc k d) = fmtDoc k d` (dedent/re-indent stability of a docstring) is checked by
+--   the oracle and the `doc` correspondence cases, not proved.
 
 /-- F44 (model level): the second formatting differs from the first when a feature value is a
 one-term Conjunction around a one-feature AVM — `[ A [ B x ] ]` comes back as `[ A.B x ]`. -/
